@@ -7,10 +7,10 @@ cd "$(dirname "$0")" || exit 2
 rc=0
 for id in $ids; do
   start=$(date +%s)
-  ./check "$id" "$tier" > /tmp/run_all_$id.log 2>&1
+  ./check "$id" "$tier" > /tmp/run_all_${tier}_$id.log 2>&1
   ex=$?
   [ $ex -ne 0 ] && rc=1
   echo "== $id exit=$ex $(( $(date +%s) - start ))s"
-  grep -E "^(VIOLATION|KNOWN-FINDING|UNCONFIRMED|INCONCLUSIVE|DIVERGENCE|SUMMARY|  unsupported)" /tmp/run_all_$id.log | cut -c1-260
+  grep -E "^(VIOLATION|KNOWN-FINDING|UNCONFIRMED|INCONCLUSIVE|DIVERGENCE|SUMMARY|  unsupported)" /tmp/run_all_${tier}_$id.log | cut -c1-260
 done
 exit $rc
